@@ -89,6 +89,12 @@ def to_case(o):
     if k == "vec":
         conts = "[" + "; ".join(blist(c) for c in (o.get("contents") or [])) + "]"
         return "CVec %d %s %s %s %d %d %s" % (o["mode"], nlist(o["bufs"]), blist(o["stream"]), script(o.get("script")), o["n"], o["err"], conts)
+    if k == "alloc":
+        return "CAlloc %d %s %d" % (o["msize"], blist(o["stream"]), o["alloc"])
+    if k == "fuzz":
+        return "CFlag %s" % coq_bool(o.get("failures", 0) == 0)
+    if k == "fuzzfail":
+        return "CFlag false"
     if k == "bigsock":
         return "CFlag %s" % coq_bool(o["same"])
     raise ValueError(k)
@@ -152,10 +158,23 @@ def summarise(ctx, obs, nm, rule):
 
 def run(ctx):
     rc, out, obs = ctx.gotest("p9", "^TestVerifC02$", ["vh_common_test.go", "c02_reader_test.go", "c02_recv_test.go"], timeout=1200)
+    import json, os
+    inflight = os.path.join(ctx.rundir, "c02_inflight.json")
+    if rc != 0 and os.path.exists(inflight):
+        # the test binary died while this input was being served: a crash of the real code (server goroutines
+        # are outside the harness's recover) -- the input is the replay
+        try:
+            inp = json.load(open(inflight))
+        except ValueError:
+            inp = {"what": "unreadable in-flight record"}
+        ctx.violation("C02:crash:%s" % inp.get("what", ""), "the process crashed or hung while handling this stream (%s)" % inp.get("what", ""),
+                      {"input": inp, "go_test_tail": out[-3000:]})
     if rc != 0 or not obs:
-        # a Go panic / hang of the real code under arbitrary input is itself the failure the property excludes
-        ctx.harness_broken("harness TestVerifC02 failed (rc=%d): a panic or hang under arbitrary input, or the harness no longer compiles" % rc, out)
-        return
+        # the harness no longer compiles / died without an in-flight record
+        if not ctx.violations:
+            ctx.harness_broken("harness TestVerifC02 failed (rc=%d): a panic or hang under arbitrary input, or the harness no longer compiles" % rc, out)
+        if not obs:
+            return
     nm = evaluate(ctx, "C02", obs, "Frame/Model.v")
     summarise(ctx, obs, nm,
               "one valid frame of every registered type + structured messages x msize around the frame length; size fields {0,6,7,8,msize-1,msize,msize+1,4MiB,4MiB+1,2^32-1}; "
